@@ -1160,7 +1160,8 @@ def rule_errkeep_unused(ctx):
 
 
 def run(ctx):
+    S = ctx.soft
     ef = ErrFlow(ctx)
-    return [rule_total(ctx), rule_catch(ctx), rule_finite(ctx),
-            rule_errkeep_ufunc(ctx, ef), rule_errkeep_sinks(ctx, ef),
-            rule_errkeep_unused(ctx), rule_table(ctx)]
+    return [S(rule_total, ctx), S(rule_catch, ctx), S(rule_finite, ctx),
+            S(rule_errkeep_ufunc, ctx, ef), S(rule_errkeep_sinks, ctx, ef),
+            S(rule_errkeep_unused, ctx), S(rule_table, ctx)]
